@@ -432,6 +432,42 @@ theorem roundtrip_general (tb : Tables) (hof : ∀ j, tb.ofName (tb.nameOf j) = 
   Prog.roundtrip_general tb hof hnm p arrows an wit hpos hlt hb hpl hh hfb hopen hall hinf han hwt hf
     hfuel pb wb he
 
+/-- **The hypothesis `IhrFaithful` of `roundtrip_general`, layer by layer**: for an annotated plan
+(backward references, no hidden node, no open disconnect, every witness node with bits) identity
+roots separate the nodes as soon as (1) the last hashing step of the identity root — two SHA-256
+compressions over the identity Merkle root and the type Merkle roots of source and target, `ihrOf` —
+has no collision among the nodes of the plan (equal outputs: equal identity Merkle roots and equal
+arrows), (2) the identity Merkle root has no collision among the nodes of the plan (equal roots: same
+kind and payload, children with pairwise equal identity Merkle roots, equal witness bits), and
+(3) nodes with one identity root have children with pairwise equal arrows — implied by (1) and the
+typing rules for every combinator except for the type between the halves of `comp` and the source of
+the right child of `disconnect`, to which the identity root does not commit.  (1) and (2) are
+injectivity of the hash on the finitely many inputs that occur; no statement about SHA-256 outside
+the plan is assumed. -/
+theorem identity_roots_separate_of_layers {jc jk : String → Option Nat} {p : Plan}
+    {arrows : Array (BM4.Ty × BM4.Ty)} {wit : Nat → Option (List Bool)} {an : Array Annot}
+    (hb : PlanBackward p) (han : annots jc jk p arrows wit = some an)
+    (hnh : ∀ (i x : Nat), p[i]? ≠ some (Node.hidden x))
+    (hopen : ∀ (i a : Nat), p[i]? ≠ some (Node.disconnect a none))
+    (hwit : ∀ i, p[i]? = some .witness → (wit i).isSome)
+    (h1 : ∀ i i', i < p.size → i' < p.size →
+      ihrOf tmr (an.getD i default).imr (arrows.getD i (.one, .one)) =
+        ihrOf tmr (an.getD i' default).imr (arrows.getD i' (.one, .one)) →
+      (an.getD i default).imr = (an.getD i' default).imr ∧
+        arrows.getD i (.one, .one) = arrows.getD i' (.one, .one))
+    (h2 : ∀ (i i' : Nat) (nd nd' : Node), p[i]? = some nd → p[i']? = some nd' →
+      (an.getD i default).imr = (an.getD i' default).imr →
+      nd.shape = nd'.shape ∧
+      (∀ (k c c' : Nat), nd.children[k]? = some c → nd'.children[k]? = some c' →
+        (an.getD c default).imr = (an.getD c' default).imr) ∧
+      (nd = .witness → wit i = wit i'))
+    (h3 : ∀ (i i' : Nat) (nd nd' : Node), p[i]? = some nd → p[i']? = some nd' →
+      (an.getD i default).ihr = (an.getD i' default).ihr →
+      ∀ (k c c' : Nat), nd.children[k]? = some c → nd'.children[k]? = some c' →
+        arrows.getD c (.one, .one) = arrows.getD c' (.one, .one)) :
+    IhrFaithful p arrows an wit :=
+  Prog.ihrFaithful_of_layers hb (annots_spec jc jk p hb arrows wit an han) hnh hopen hwit h1 h2 h3
+
 /-- the Elements jet table the driver runs prints the name a jet was read from -/
 theorem elements_nameOf_ofName (name : String) (j : JetsE.J) (h : JetsE.ofName name = some j) :
     JetsE.nameOf j = name :=
@@ -559,6 +595,7 @@ example : ∃ an cm pb wb, encode JetsE.jc JetsE.ofName compWitnessUnit an false
 
 #print axioms roundtrip_canonical
 #print axioms roundtrip_general
+#print axioms identity_roots_separate_of_layers
 #print axioms reinference_along_nodemap
 #print axioms elements_nameOf_ofName
 #print axioms roundtrip_nodemap_partial
